@@ -13,6 +13,15 @@ pub fn c20_mirrors(cx: &mut Ctx) {
     // (a)
     super::data::relay_check(cx, "C20", false);
     super::data::result_attribution(cx, "C20");
+    // (a') nobody inherits a server in somebody else's transaction or with somebody else's settings
+    let before = cx.out.len();
+    super::data::handoff_check(cx, true);
+    for v in cx.out.iter_mut().skip(before) {
+        if v.property == "C02" {
+            v.property = "C20".into();
+            v.fingerprint = v.fingerprint.replacen("C02/", "C20/dirty_handoff/", 1);
+        }
+    }
     // (b)
     if cx.param_bool("calm_net") {
         for c in h.clients.values() {
